@@ -298,6 +298,7 @@ def run(ck):
     # ------------------------------------------------------------------ R07.5
     tdc = prog.cls(TD)
     rcm = tdc.methods.get('recalc')
+    ck.extra['exhaustive_parts'] = ['R07.5: all 27 consistent (given?, member?) combinations of times/dates/weekdays']
     ck.need(R5, rcm is not None, "TimeDate.recalc not found")
     so = [x for x in own_nodes(rcm.node) if isinstance(x, ast.Call) and call_name(x) == 'set_output']
     ck.need(R5, len(so) == 1 and len(so[0].args) == 1, "TimeDate.recalc: set_output call not recognised")
